@@ -65,6 +65,8 @@ def parseEff : String → Option EffKind
   -- reads what `get()` reads and must subscribe the same way
   | "dp" => some .d
   | "dq" => some .d
+  -- a synchronous observer (ImmediateEffect) is implementation-side only: no task, nothing the model shows
+  | "i" => some .none
   | _ => none
 
 def parseCfg4 (kind srcs ini eff : String) (via : Bool) : Option Cfg :=
@@ -200,6 +202,8 @@ structure DS where
   missed : Bool := false
   /-- the subscriber peeks (`dp` / `dq`): no reloads are driven -/
   peek : Bool := false
+  /-- a synchronous observer is installed (`i`): no manual writes, guards or pauses are driven -/
+  imm : Bool := false
 
 /-- `poll j`: the model's step under a paused / running owner (`Model/AsyncPause.pollNthP`, `pollDPaused`:
 theorems in Theorems/C10Pause.lean) -/
@@ -220,6 +224,8 @@ def stepOpP (d : DS) (w : List String) : Option DS :=
   let s := d.s
   let plain := s.eff == .none && !s.once && !s.isLocal && s.lastManual.isNone && !usedGuards s
   if d.peek && (w.head? == some "set" || w.head? == some "refetch" || w.head? == some "mset") then none else
+  if d.imm && (w.head? == some "mset" || w == ["attach", "h"] || w == ["hold"] || w == ["pause"] || w == ["resume"])
+    then none else
   if (w == ["pause"] || w == ["resume"]) && !(plain && !s.firstRun) then none else
   if d.usedPause && (w.head? == some "mset" || w == ["attach", "h"] || w == ["hold"]) then none else
   match w with
@@ -241,7 +247,7 @@ def stepLine (d : Option DS) (line : String) : Option DS × String :=
     | none, some c =>
       let peek := rest[3]? == some "dp" || rest[3]? == some "dq"
       if peek && (rest.length != 4 || rest[2]? != some "-" || c.once || c.isLocal) then (d, "bad-op")
-      else (some { s := init c, peek := peek }, " ".intercalate ("cfg" :: rest))
+      else (some { s := init c, peek := peek, imm := rest[3]? == some "i" }, " ".intercalate ("cfg" :: rest))
     | _, _ => (d, "bad-op")
   | w =>
     match d with
